@@ -6,13 +6,13 @@ import OxiddModel.Reorder.SwapStoreStep
 namespace OxiddModel.Reorder.SwapStore
 open OxiddModel.Bdd OxiddModel.Bdd.Refine
 section
-variable {a b : Nat} {sh0 : Nat → Option Node} {old : List Nat} {ext : Nat → Nat}
+variable {a b : Nat} {P : Nat → Prop} {sh0 : Nat → Option Node} {old : List Nat} {ext : Nat → Nat}
 
 /-- **one iteration of the loop preserves the invariant** -/
 theorem stepNode_spec {al : Heap → Nat} (hal : ∀ h : Heap, h.get? (al h) = none)
-    (hp : Pre a b sh0 old) {R : Nat → Nat} (hR : ∀ k, ext k ≤ R k) {st : LS}
-    {i : Nat} {todo : List Nat} (hinv : LInv a b sh0 old ext R st (i :: todo)) :
-    LInv a b sh0 old ext R (stepNode al a b old st i) todo := by
+    (hp : Pre a b P sh0 old) {R : Nat → Nat} (hR : ∀ k, ext k ≤ R k) {st : LS}
+    {i : Nat} {todo : List Nat} (hinv : LInv a b P sh0 old ext R st (i :: todo)) :
+    LInv a b P sh0 old ext R (stepNode al a b old st i) todo := by
   have hj := hinv.j
   have hit : i ∈ i :: todo := by simp
   obtain ⟨n, hsi, hn, hla⟩ := hj.todo_live hp hit
@@ -27,17 +27,17 @@ theorem stepNode_spec {al : Heap → Nat} (hal : ∀ h : Heap, h.get? (al h) = n
   by_cases hcond : (!lvlIs st.h b m.t && !lvlIs st.h b m.e) = true
   · rw [if_pos hcond]
     simp only [Bool.and_eq_true, Bool.not_eq_true', ← Bool.not_eq_true] at hcond
-    have ht : Bel a b sh0 m.t := by
+    have ht : Bel a b P sh0 m.t := by
       rcases hcf_t.1 with h | h
       · exact h
       · exact absurd (hlt.mpr h) hcond.1
-    have he : Bel a b sh0 m.e := by
+    have he : Bel a b P sh0 m.e := by
       rcases hcf_e.1 with h | h
       · exact h
       · exact absurd (hle.mpr h) hcond.2
     exact stepNode_move hp hinv hm hn ht he
   · rw [if_neg hcond]
-    have hnb : ¬ (Bel a b sh0 m.t ∧ Bel a b sh0 m.e) := by
+    have hnb : ¬ (Bel a b P sh0 m.t ∧ Bel a b P sh0 m.e) := by
       rintro ⟨ht, he⟩
       apply hcond
       have h1 : lvlIs st.h b m.t = false := by
@@ -51,19 +51,19 @@ theorem stepNode_spec {al : Heap → Nat} (hal : ∀ h : Heap, h.get? (al h) = n
 /-- **the loop**: from the invariant for the whole iteration order to the invariant with nothing
 left to visit -/
 theorem levelSwapLoop_spec {al : Heap → Nat} (hal : ∀ h : Heap, h.get? (al h) = none)
-    (hp : Pre a b sh0 old) {R : Nat → Nat} (hR : ∀ k, ext k ≤ R k) (order : List Nat) {st : LS}
-    (hinv : LInv a b sh0 old ext R st order) :
-    LInv a b sh0 old ext R (levelSwapLoop al a b old order st) [] := by
+    (hp : Pre a b P sh0 old) {R : Nat → Nat} (hR : ∀ k, ext k ≤ R k) (order : List Nat) {st : LS}
+    (hinv : LInv a b P sh0 old ext R st order) :
+    LInv a b P sh0 old ext R (levelSwapLoop al a b old order st) [] := by
   unfold levelSwapLoop
   induction order generalizing st with
   | nil => exact hinv
   | cons i rest ih => exact ih (stepNode_spec hal hp hR hinv)
 
 /-- the invariant holds at loop entry -/
-theorem J.init (hp : Pre a b sh0 old) {low order : List Nat}
+theorem J.init (hp : Pre a b P sh0 old) {low order : List Nat}
     (hlow : ∀ i, i ∈ low ↔ ∃ n, sh0 i = some n ∧ n.level = b) (hlnd : low.Nodup)
     (hord : ∀ i, i ∈ order ↔ i ∈ old) (hond : order.Nodup) :
-    J a b sh0 old ext sh0 low [] order := by
+    J a b P sh0 old ext sh0 low [] order := by
   refine
     { frame := fun k n h _ _ => h
       todoSh := fun i hi => ⟨(hord i).mp hi, rfl⟩
